@@ -148,6 +148,36 @@ func c07BuildPool(verifSeed int64) []*sbom.Document {
 			n.LicenseConcluded = ")("
 		}
 	})
+	// random containment graphs over well-formed nodes: DAGs (a node with two parents), cycles that do
+	// not pass through the root, self loops on non-root nodes, chains below a top-level component
+	for i := 0; i < 14; i++ {
+		d := base(fmt.Sprintf("c%d", i))
+		g := gen.New(r.Int63(), gen.Profile{Serialisable: true, Tag: fmt.Sprintf("c%d", i)})
+		n := 3 + r.Intn(5)
+		d.NodeList = &sbom.NodeList{}
+		for j := 0; j < n; j++ {
+			d.NodeList.Nodes = append(d.NodeList.Nodes, g.Node(fmt.Sprintf("SPDXRef-c%dn%d", i, j)))
+		}
+		id := func(j int) string { return d.NodeList.Nodes[j].Id }
+		d.NodeList.RootElements = []string{id(0)}
+		d.NodeList.Edges = append(d.NodeList.Edges, &sbom.Edge{Type: sbom.Edge_contains, From: id(0), To: []string{id(1)}})
+		for j := 2; j < n; j++ { // a chain/tree below the top-level component 1
+			d.NodeList.Edges = append(d.NodeList.Edges, &sbom.Edge{Type: sbom.Edge_contains, From: id(1 + r.Intn(j-1)), To: []string{id(j)}})
+		}
+		switch i % 4 {
+		case 0: // back edge: cycle among non-root nodes
+			d.NodeList.Edges = append(d.NodeList.Edges, &sbom.Edge{Type: sbom.Edge_contains, From: id(n - 1), To: []string{id(1 + r.Intn(n-2))}})
+		case 1: // self loop on a non-root node
+			k := 1 + r.Intn(n-1)
+			d.NodeList.Edges = append(d.NodeList.Edges, &sbom.Edge{Type: sbom.Edge_contains, From: id(k), To: []string{id(k)}})
+		case 2: // second parent (DAG)
+			d.NodeList.Edges = append(d.NodeList.Edges, &sbom.Edge{Type: sbom.Edge_contains, From: id(0), To: []string{id(n - 1)}})
+		case 3: // two-node cycle plus dependency cycle
+			d.NodeList.Edges = append(d.NodeList.Edges, &sbom.Edge{Type: sbom.Edge_contains, From: id(2), To: []string{id(1)}},
+				&sbom.Edge{Type: sbom.Edge_dependsOn, From: id(1), To: []string{id(2), id(1)}})
+		}
+		pool = append(pool, d)
+	}
 	for i := 0; i < 8; i++ { // schema-driven hostile documents, forced to one existing root so that serializers get past their guards
 		g := gen.New(r.Int63(), gen.Profile{MaxNodes: 6, Tag: fmt.Sprintf("x%d", i), Hostile: true})
 		d := g.Document(fmt.Sprintf("urn:uuid:11111111-0000-4000-8000-%012d", i))
@@ -181,7 +211,7 @@ func genC07(verifSeed int64, tier string, idx int) *core.Scenario {
 		// bias: hostile documents and a few hot documents recur inside one history
 		var pi int
 		switch k := r.Intn(10); {
-		case k < 4:
+		case k < 5:
 			pi = 24 + r.Intn(len(pool)-24)
 		case k < 7 && len(used) > 0:
 			keys := make([]int, 0, len(used))
